@@ -104,6 +104,13 @@ func (w *world) startOverlap() bool {
 	if w.runningAt != 0 && w.runningAt < w.firstShutInv {
 		return false
 	}
+	// a shutdown that found the daemon not running cancels nobody
+	w.poll()
+	for _, in := range w.insts {
+		if in.cancelAt != 0 {
+			return false
+		}
+	}
 	return w.sawRet == 0 || w.startInv < w.sawRet
 }
 
@@ -127,14 +134,19 @@ func (w *world) setRunning(step uint64) {
 	}
 }
 
+// poll notes contexts of running workers that are cancelled by now.
+func (w *world) poll() {
+	for _, b := range w.insts {
+		if b.started != 0 && b.returned == 0 && b.cancelAt == 0 && b.ctx.Err() != nil {
+			b.cancelAt = w.s.Tick()
+		}
+	}
+}
+
 // checkOrder polls the contexts of running workers and evaluates the ordering oracle on everything known so far.
 func (w *world) checkOrder() {
 	s := w.s
-	for _, b := range w.insts {
-		if b.started != 0 && b.returned == 0 && b.cancelAt == 0 && b.ctx.Err() != nil {
-			b.cancelAt = s.Tick()
-		}
-	}
+	w.poll()
 	for _, b := range w.insts {
 		if b.cancelAt == 0 {
 			continue
@@ -234,6 +246,20 @@ func (w *world) register(in *inst) {
 	in.err, in.accepted = err, err == nil
 	s.Logf("BackgroundWorker(%s#%d) = %v", in.name, in.id, err)
 	raced := w.latest[in.name] != prev // another registration of the same name completed meanwhile
+	switch {
+	case errors.Is(err, daemon.ErrExistingBackgroundWorkerStillRunning):
+		s.Probe("refused-still-running")
+	case errors.Is(err, daemon.ErrDuplicateBackgroundWorker):
+		s.Probe("refused-duplicate")
+	case errors.Is(err, daemon.ErrDaemonAlreadyStopped):
+		s.Probe("refused-already-stopped")
+	case err == nil && !in.initial && prev != nil:
+		s.Probe("accepted-name-of-finished-worker")
+	case err == nil && !in.initial && w.firstShutInv != 0:
+		s.Probe("accepted-during-shutdown")
+	case err == nil && !in.initial:
+		s.Probe("accepted-new-name-while-running")
+	}
 	if in.accepted {
 		w.latest[in.name] = in
 	}
@@ -326,6 +352,9 @@ func body(s *simrt.Sim) {
 			w.d.Run()
 			w.runRet = s.Tick()
 			s.Logf("Run returned")
+			if w.firstShutInv == 0 {
+				s.Probe("run-returned-before-shutdown")
+			}
 			for _, in := range w.insts {
 				if in.started != 0 && in.returned == 0 && in.regRet != 0 && in.regRet < w.runInv {
 					s.Fail("run-waits", "worker-running-at-return"+w.suffix(in), "Run (steps [%d,%d]) returned while worker %s#%d (order %d, registered before Run, started at %d) had not returned",
